@@ -100,6 +100,14 @@ pub fn ev_cases(pl: &Plain, two_d: bool, thorough: bool) -> Vec<EvCase> {
             }
             v.push(EvCase { label: format!("six functions step {}", k), specs, known_root: None });
         }
+        // forty functions crossing in one step (any per-step resource shared between the root searches shows)
+        if k == 1 {
+            let specs: Vec<EventSpec> = (0..40).map(|i| {
+                let x = pl.xs[k] + (0.02 + 0.024 * ((i * 17) % 40) as f64) * h;
+                if i % 3 == 0 { nt(x) } else { t(x) }
+            }).collect();
+            v.push(EvCase { label: format!("forty functions step {}", k), specs, known_root: None });
+        }
         // a terminal event among several functions firing in the same step (either side of the others)
         v.push(EvCase { label: format!("term pair: other before step {}", k), specs: vec![t(a), t(b).term(1)], known_root: Some(a) });
         v.push(EvCase { label: format!("term pair: other after step {}", k), specs: vec![t(b), t(a).term(1)], known_root: Some(b) });
@@ -517,6 +525,16 @@ fn run_case_c10(cx: &Ctx, key: &str, ec: &EvCase, tj: usize, count: usize, with_
                 if lt.to_bits() != ev_t.to_bits() || !bits_eq(&ly, &ev_y) || ev_t.to_bits() != tstop.to_bits() {
                     vs.push(("final-sample".into(), format!("final sample ({:e}) is not the terminal event point ({:e}; plain run's event at {:e})", lt, ev_t, tstop)));
                 }
+                // ... and its state is the solution there (the plain run's continuous solution is the witness)
+                if dense {
+                    if let Ok(w) = s0.sol(lt) {
+                        let sc = 1.0 + w.iter().fold(0.0f64, |a, v| a.max(v.abs()));
+                        let d = ly.iter().zip(&w).fold(0.0f64, |a, (u, v)| a.max((u - v).abs()));
+                        if !(d <= 1e-9 * sc) {
+                            vs.push(("final-state".into(), format!("the state of the final sample at t={:e} differs from the solution there by {:e}", lt, d)));
+                        }
+                    }
+                }
                 // nothing later, everything before identical to the plain run's prefix
                 if s1.t.iter().any(|t| before(tstop, *t, dir)) {
                     vs.push(("sample-after-stop".into(), format!("a sample later than the stop {:e} was reported", tstop)));
@@ -721,6 +739,16 @@ pub fn run_check(mode: Mode, replay: Option<Value>) -> i32 {
             rep.rule = "two-pass: roots placed relative to the plain run's grid; every event configuration is run (dense output on, t_eval none) and every reported event is checked: bracket, y_e = sol(t_e), |g| <= L(4e-12+8eps|t|), direction at the bracketing endpoints, order, shapes; non-trivial = run with events completed; distinct = distinct (RHS fingerprint, event times, configuration)".into();
         }
         Mode::C09 => {
+            // the integer conversion of the direction filter (SciPy style): the sign decides, not the value
+            for k in -3i32..=3 {
+                let want = if k > 0 { Direction::Positive } else if k < 0 { Direction::Negative } else { Direction::All };
+                let got = Direction::from(k);
+                rep.evaluations += 1;
+                if got != want {
+                    let key = format!("direction-from:{}", k);
+                    rep.violations.push(Violation::new(&key, "direction-conversion", format!("Direction::from({}) is {:?}, expected {:?}", k, got, want), json!({"key": key})));
+                }
+            }
             rep.require("sign-change-step", 1000);
             rep.require("several-crossings", 10);
             rep.require("multi-event", 10);
